@@ -28,3 +28,19 @@ reg("C12", harness="c12_gf", level="exploration", deadline=(60, 300),
          "GFNI matrices applied to all 256 bytes through a software model and the real vgf2p8affineqb); default and GF_LARGE_TABLES "
          "builds. distinct_nontrivial counts distinct (a,b) pairs and (grid,cpu-level) table builds.",
     assumptions=["reference multiply: shift-and-xor reduced by 0x11D, written independently (ref/ref_gf.h)"])
+
+
+reg("C16", harness="c16_dispatch", level="model_checking", deadline=(120, 600), build_src=["isareq.c"], engine="simcpu",
+    technique="explicit-state enumeration of every dependency-closed CPUID/XCR0 assignment, executing the real resolver code per state",
+    level_text="The resolvers' complete observable input space (25 CPUID/XCR0 bits, SDM-closed: 45 400 assignments) is enumerated and every one "
+               "of the 42 unmodified resolvers is executed in each state with cpuid/xgetbv answered by the harness; the selected "
+               "implementation's instruction-set needs (classified from the built objects by recursive-descent disassembly) must be a subset "
+               "of what the state offers; every distinct resolution vector is then materialised and a data-plane battery is run under it "
+               "against independent references.",
+    level_note="trusted: the SDM implication table in props/c16_dispatch.c, the hand-written mnemonic->extension table in engine/isaclass.py "
+               "(fails closed on unknown mnemonics), objdump. Unexamined features (SSSE3, POPCNT, BMI1/2, LZCNT) fixed to co-generational values.",
+    runs=[dict(flavour="sim")],
+    rule="state = one dependency-closed assignment of the 25 examined CPUID.1:ECX/EAX, CPUID.7:EBX/ECX and XCR0 inputs; transition = one "
+         "execution of a real <f>_dispatch_init under that assignment; invariants: executable, portable fallback, GFNI table/consumer pairing, "
+         "no xgetbv without OSXSAVE; then each distinct 42-tuple of selections is materialised and the agreement battery (all public entries "
+         "vs references) run. distinct_nontrivial = distinct resolution vectors materialised.")
